@@ -137,7 +137,7 @@ class Ctx:
                 raise Fail("coqchk rejected %s: %s" % (mod, tail))
         return names
 
-    def check_genlink(self, gen_cmd, gen_name, link_name, key):
+    def check_genlink(self, gen_cmd, gen_name, link_name, key, display=None, pre_files=()):
         """Regenerate a Gallina file from /repo's CURRENT source with a translator, compile it and the committed link
         file (coq/GenLink/<link_name>.v: generated definitions = the model's + the theorems restated for them).
         gen_cmd(outpath) -> argv of the translator.  Returns the list of theorem records; raises Fail when the
@@ -159,6 +159,11 @@ class Ctx:
         p = sh(base + [gen], cwd=gdir, check=False, timeout=1200)
         if p.returncode != 0:
             raise Fail("generated file %s.v does not compile: %s" % (gen_name, p.stdout[-800:]))
+        for pf in pre_files:      # shared lemmas of the link files (independent of the generated text)
+            shutil.copy(os.path.join(COQ, "GenLink", pf + ".v"), os.path.join(gdir, pf + ".v"))
+            q = sh(base + [os.path.join(gdir, pf + ".v")], cwd=gdir, check=False, timeout=1200)
+            if q.returncode != 0:
+                raise Fail("GenLink/%s.v does not compile: %s" % (pf, q.stdout[-800:]))
         p = sh(base + [link], cwd=gdir, check=False, timeout=1800)
         if p.returncode != 0:
             raise Fail("proof obligation of GenLink/%s.v no longer checks against the regenerated %s.v (the source changed): %s"
@@ -175,11 +180,11 @@ class Ctx:
             raise Fail("theorems no longer stated/checked in GenLink/%s.v: %s" % (link_name, ", ".join(missing) or "(none registered)"))
         self.theorems = list(self.theorems) + recs
         self.coverage.setdefault("regenerated_from_source", []).append(
-            {"translator": " ".join(os.path.relpath(x, VERIF) if x.startswith(VERIF) else x for x in gen_cmd("<out>")),
+            {"translator": display or " ".join(os.path.relpath(x, VERIF) if x.startswith(VERIF) else x for x in gen_cmd("<out>")),
              "generated_sha256": sha(open(gen, "rb").read()), "link": "coq/GenLink/%s.v" % link_name, "theorems": thms})
         return recs
 
-    def genlink_goarith(self):
+    def genlink_goarith(self, link="GoLinkC08"):
         """tools/gotocoq: re-translate the arithmetic functions of the Go source, re-check GenLink/GoArithLink.v.
         Returns None or the failure text (the caller goes on to search for a concrete failing input)."""
         try:
@@ -187,7 +192,8 @@ class Ctx:
             binp = os.path.join(self.tmp, "gotocoq")
             if not os.path.exists(binp):
                 sh(["go", "build", "-o", binp, "."], cwd=tdir, env=GOENV, timeout=600)
-            self.check_genlink(lambda out: [binp, REPO, out], "GoArithGen", "GoArithLink", "GoArith.gen")
+            self.check_genlink(lambda out: [binp, REPO, out], "GoArithGen", link, link + ".gen", pre_files=("GoLinkCommon",),
+                               display="tools/gotocoq (built with go build this run) %s <out>" % REPO)
             return None
         except Fail as e:
             return str(e)
